@@ -10,12 +10,12 @@ def run(ctx):
     plain = build.driver("plain", "c08_buf", ["c08_buf.c"])
     sd = ctx.seed
     jobs = []
-    for i in range(6 if q else 16):
-        jobs.append(dict(cmd=[asan, "--mode", "seq", "--ops", str(60000 if q else 600000), "--seed", str(sd * 100 + i)], variant="asan", tag="seq %d" % i, san_ctx="shmbuffer-seq"))
+    for i in range(6 if q else 32):
+        jobs.append(dict(cmd=[asan, "--mode", "seq", "--ops", str(60000 if q else 2000000), "--seed", str(sd * 100 + i)], variant="asan", tag="seq %d" % i, san_ctx="shmbuffer-seq"))
     jobs.append(dict(cmd=[asan, "--mode", "smaller", "--ops", "20000", "--seed", str(sd)], variant="asan", tag="smaller-size handle", san_ctx="shmbuffer-smaller"))
     shapes = [(4, 2), (1, 1), (2, 4), (8, 8)] if q else [(4, 2), (1, 1), (2, 4), (8, 8), (16, 8), (3, 16), (32, 4)]
     for j, (P, C) in enumerate(shapes):
-        N = (20000 if q else 200000) // max(1, P // 2)
+        N = (20000 if q else 600000) // max(1, P // 2)
         for (variant, exe) in (("asan", asan), ("plain", plain)):
             for mode in ("threads", "procs"):
                 jobs.append(dict(cmd=[exe, "--mode", mode, "--P", str(P), "--C", str(C), "--N", str(N), "--rounds", "3" if q else "6", "--seed", str(sd * 100 + j)],
